@@ -15,6 +15,7 @@ import FgaVerif.Model.WAssign
 import FgaVerif.Proofs.WAssignCycle
 import FgaVerif.Proofs.WAssignPost
 import FgaVerif.Proofs.WAssignWild
+import FgaVerif.Proofs.WAssignErr
 import FgaVerif.Spec.WeightsSem
 import FgaVerif.Gen.Atn
 import FgaVerif.Model.Conform
@@ -266,6 +267,9 @@ def opWAssign (m : Sexp) (order : List Sexp) : String :=
       -- under its own source (a theorem for built graphs, built_graph_srcOK) and terminal nodes have no outgoing edges
       if !WAssign.srcOKB g then "(edge-under-foreign-source)" else
       if !WAssign.termSinkB g then "(terminal-with-edges)" else
+      -- hypothesis of Props/C05.algorithm_rejects_only_ill_founded (every error of the port is justified): no
+      -- direct edge ends in an operator node
+      if !WAssign.hopOKB g then "(direct-edge-into-operator)" else
       match WAssign.assignWeights g ord with
       | .error .modelCycle => "(err model-cycle)"
       | .error .tupleCycle => "(err tuple-cycle)"
